@@ -5,8 +5,10 @@ CONSTANTS
   Grads <- QGrads
   GTols <- QGTols
   Norms <- QNorms
+  GScales <- QGScales
   MaxLen = 3
 INVARIANT LoggedIsVerdict
+INVARIANT GradHomogeneous
 INVARIANT Emit
 PROPERTY OtherClockIrrelevant
 PROPERTY MonotoneWithoutReset
